@@ -470,3 +470,7 @@ mod tests {
         topic
     }
 }
+
+#[cfg(kani)]
+#[path = "/verif/harness/server/hooks/topic_messages.rs"]
+pub(crate) mod verif_hook;
